@@ -1,11 +1,339 @@
 #![allow(dead_code, unused_imports, clippy::all)]
-// The real macro, compiled from the working tree (see build.rs).
+// Engine E1: the real macro, compiled from the working tree (see build.rs), run in-process.
 include!(concat!(env!("OUT_DIR"), "/entrait_lib.rs"));
+
+mod wire;
+
+use proc_macro2::{Delimiter, TokenTree};
+use std::io::{BufRead, Write};
+
+type TS = proc_macro2::TokenStream;
+
+fn tt_eq(a: &TokenTree, b: &TokenTree) -> bool {
+    match (a, b) {
+        (TokenTree::Ident(x), TokenTree::Ident(y)) => x.to_string() == y.to_string(),
+        (TokenTree::Punct(x), TokenTree::Punct(y)) => x.as_char() == y.as_char(),
+        (TokenTree::Literal(x), TokenTree::Literal(y)) => x.to_string() == y.to_string(),
+        (TokenTree::Group(x), TokenTree::Group(y)) => {
+            x.delimiter() == y.delimiter() && ts_eq(x.stream(), y.stream())
+        }
+        _ => false,
+    }
+}
+
+fn trees(ts: TS) -> Vec<TokenTree> {
+    ts.into_iter().collect()
+}
+
+fn ts_eq(a: TS, b: TS) -> bool {
+    let a = trees(a);
+    let b = trees(b);
+    a.len() == b.len() && a.iter().zip(b.iter()).all(|(x, y)| tt_eq(x, y))
+}
+
+fn starts_with(hay: &[TokenTree], needle: &[TokenTree]) -> bool {
+    hay.len() >= needle.len() && hay.iter().zip(needle.iter()).all(|(x, y)| tt_eq(x, y))
+}
+
+fn collect(v: &[TokenTree]) -> TS {
+    v.iter().cloned().collect()
+}
+
+fn is_ident(t: &TokenTree, s: &str) -> bool {
+    matches!(t, TokenTree::Ident(i) if i.to_string() == s)
+}
+
+fn brace_group(t: &TokenTree) -> Option<TS> {
+    match t {
+        TokenTree::Group(g) if g.delimiter() == Delimiter::Brace => Some(g.stream()),
+        _ => None,
+    }
+}
+
+/// `::core::compile_error!{ "msg" }` repeated: the macro reported through the diagnostic channel.
+fn compile_errors(out: &[TokenTree]) -> Option<Vec<String>> {
+    let mut msgs = vec![];
+    let mut i = 0;
+    if out.is_empty() {
+        return None;
+    }
+    while i < out.len() {
+        let pat = [":", ":", "core", ":", ":", "compile_error", "!"];
+        if i + pat.len() >= out.len() {
+            return None;
+        }
+        for (k, want) in pat.iter().enumerate() {
+            let ok = match &out[i + k] {
+                TokenTree::Punct(p) => p.as_char().to_string() == *want,
+                TokenTree::Ident(id) => id.to_string() == *want,
+                _ => false,
+            };
+            if !ok {
+                return None;
+            }
+        }
+        let g = brace_group(&out[i + pat.len()])?;
+        let inner = trees(g);
+        if inner.len() != 1 {
+            return None;
+        }
+        let lit: syn::LitStr = syn::parse2(collect(&inner)).ok()?;
+        msgs.push(lit.value());
+        i += pat.len() + 1;
+    }
+    Some(msgs)
+}
+
+/// Bring the real output into the shape of the model's `Out`: check the claimed-verbatim
+/// original region against the input, parse everything else as generated items.
+fn reparse(kind: &str, input: &[TokenTree], out: &[TokenTree]) -> String {
+    let empty_list = wire::list(vec![]);
+    let fail = |prefix_ok: bool| {
+        wire::node(
+            "rout",
+            &[
+                wire::b(prefix_ok).into(),
+                wire::b(false).into(),
+                wire::toks(TS::new()),
+                empty_list.clone(),
+                empty_list.clone(),
+            ],
+        )
+    };
+    match kind {
+        "fn" => {
+            let prefix_ok = starts_with(out, input);
+            let rest: TS = if prefix_ok {
+                collect(&out[input.len()..])
+            } else {
+                // fall back: everything after the first item
+                match syn::parse2::<syn::File>(collect(out)) {
+                    Ok(f) => {
+                        let mut ts = TS::new();
+                        for it in f.items.iter().skip(1) {
+                            quote::ToTokens::to_tokens(it, &mut ts);
+                        }
+                        ts
+                    }
+                    Err(_) => return fail(false),
+                }
+            };
+            match wire::gen_items(rest) {
+                Some(after) => wire::node(
+                    "rout",
+                    &[
+                        wire::b(prefix_ok).into(),
+                        wire::b(true).into(),
+                        wire::toks(TS::new()),
+                        empty_list.clone(),
+                        after,
+                    ],
+                ),
+                None => fail(prefix_ok),
+            }
+        }
+        "mod" => {
+            // header .. `mod` ident { body }
+            let k = (2..input.len()).find(|&k| {
+                brace_group(&input[k]).is_some()
+                    && matches!(input[k - 1], TokenTree::Ident(_))
+                    && is_ident(&input[k - 2], "mod")
+            });
+            let k = match k {
+                Some(k) => k,
+                None => return fail(false),
+            };
+            if out.len() <= k || !starts_with(out, &input[..k]) {
+                return fail(false);
+            }
+            let in_body = trees(brace_group(&input[k]).unwrap());
+            let out_body = match brace_group(&out[k]) {
+                Some(b) => trees(b),
+                None => return fail(false),
+            };
+            let prefix_ok = starts_with(&out_body, &in_body);
+            if !prefix_ok {
+                return fail(false);
+            }
+            let inside = wire::gen_items(collect(&out_body[in_body.len()..]));
+            let after = wire::gen_items(collect(&out[k + 1..]));
+            match (inside, after) {
+                (Some(i), Some(a)) => wire::node(
+                    "rout",
+                    &[
+                        wire::b(true).into(),
+                        wire::b(true).into(),
+                        wire::toks(TS::new()),
+                        i,
+                        a,
+                    ],
+                ),
+                _ => fail(true),
+            }
+        }
+        "trait" => match wire::gen_items(collect(out)) {
+            Some(after) => wire::node(
+                "rout",
+                &[
+                    wire::b(true).into(),
+                    wire::b(true).into(),
+                    wire::toks(TS::new()),
+                    empty_list.clone(),
+                    after,
+                ],
+            ),
+            None => fail(true),
+        },
+        "impl" => {
+            let j = match out.iter().position(|t| brace_group(t).is_some()) {
+                Some(j) => j,
+                None => return fail(false),
+            };
+            match wire::gen_items(collect(&out[j + 1..])) {
+                Some(after) => wire::node(
+                    "rout",
+                    &[
+                        wire::b(true).into(),
+                        wire::b(true).into(),
+                        wire::toks(collect(&out[..=j])),
+                        empty_list.clone(),
+                        after,
+                    ],
+                ),
+                None => fail(true),
+            }
+        }
+        _ => {
+            // unmodelled input: only record whether the output parses as items at all
+            let parsed = syn::parse2::<syn::File>(collect(out)).is_ok();
+            wire::node(
+                "rout",
+                &[
+                    wire::b(true).into(),
+                    wire::b(parsed).into(),
+                    wire::toks(TS::new()),
+                    empty_list.clone(),
+                    empty_list.clone(),
+                ],
+            )
+        }
+    }
+}
+
+fn run_real(variant: &str, attr: TS, item: TS) -> Result<TS, String> {
+    let f: fn(TS, TS) -> TS = match variant {
+        "plain" => entrait,
+        "export" => entrait_export,
+        "unimock" => entrait_unimock,
+        "export_unimock" => entrait_export_unimock,
+        other => return Err(format!("harness: unknown variant {other}")),
+    };
+    match std::panic::catch_unwind(move || f(attr, item)) {
+        Ok(ts) => Ok(ts),
+        Err(payload) => {
+            let msg = if let Some(s) = payload.downcast_ref::<&str>() {
+                s.to_string()
+            } else if let Some(s) = payload.downcast_ref::<String>() {
+                s.clone()
+            } else {
+                "<non-string panic payload>".to_string()
+            };
+            Err(msg)
+        }
+    }
+}
+
+fn process_line(line: &str) -> String {
+    let mut parts = line.splitn(4, '\t');
+    let id = parts.next().unwrap_or("");
+    let variant = parts.next().unwrap_or("");
+    let attr_text = parts.next().unwrap_or("");
+    let item_text = parts.next().unwrap_or("");
+    let attr: TS = match attr_text.parse() {
+        Ok(t) => t,
+        Err(_) => return format!("[lexerr n:{} ]", id),
+    };
+    let item: TS = match item_text.parse() {
+        Ok(t) => t,
+        Err(_) => return format!("[lexerr n:{} ]", id),
+    };
+    let (kind, item_enc) = match wire::encode_item(item.clone()) {
+        Ok(enc) => {
+            let kind = enc[1..].split(' ').next().unwrap_or("").to_string();
+            (kind, enc)
+        }
+        Err(reason) => (
+            "unmodelled".to_string(),
+            wire::node("unmodelled", &[wire::text(&reason)]),
+        ),
+    };
+    let input_trees = trees(item.clone());
+    let real = match run_real(variant, attr.clone(), item.clone()) {
+        Err(msg) => wire::node("panic", &[wire::text(&msg)]),
+        Ok(out) => {
+            let out_trees = trees(out.clone());
+            match compile_errors(&out_trees) {
+                Some(msgs) => wire::node("diag", &[wire::list(msgs.iter().map(|m| wire::text(m)))]),
+                None => wire::node(
+                    "ok",
+                    &[wire::toks(out), reparse(&kind, &input_trees, &out_trees)],
+                ),
+            }
+        }
+    };
+    wire::node(
+        "case",
+        &[
+            wire::name(id),
+            wire::name(variant),
+            wire::toks(attr),
+            wire::toks(item),
+            item_enc,
+            real,
+        ],
+    )
+}
 
 fn main() {
     let args: Vec<String> = std::env::args().collect();
-    let attr: proc_macro2::TokenStream = args[1].parse().unwrap();
-    let item: proc_macro2::TokenStream = args[2].parse().unwrap();
-    let r = std::panic::catch_unwind(|| entrait(attr, item));
-    match r { Ok(out) => println!("{}", out), Err(_) => println!("PANIC") }
+    if args.len() < 3 {
+        eprintln!("usage: {} <cases.tsv> <out.cases> [threads]", args[0]);
+        std::process::exit(2);
+    }
+    // panics of the macro under test are caught per case; keep stderr quiet
+    std::panic::set_hook(Box::new(|_| {}));
+    let threads: usize = args.get(3).and_then(|s| s.parse().ok()).unwrap_or(16);
+    let file = std::fs::File::open(&args[1]).expect("open cases");
+    let lines: Vec<String> = std::io::BufReader::new(file)
+        .lines()
+        .map(|l| l.expect("read line"))
+        .filter(|l| !l.is_empty())
+        .collect();
+    let n = lines.len();
+    let chunk = (n + threads - 1) / threads.max(1);
+    let lines = std::sync::Arc::new(lines);
+    let mut handles = vec![];
+    for t in 0..threads {
+        let lines = lines.clone();
+        handles.push(
+            std::thread::Builder::new()
+                .stack_size(64 << 20)
+                .spawn(move || {
+                    let lo = (t * chunk).min(lines.len());
+                    let hi = ((t + 1) * chunk).min(lines.len());
+                    let mut out = Vec::with_capacity(hi - lo);
+                    for l in &lines[lo..hi] {
+                        out.push(process_line(l));
+                    }
+                    out
+                })
+                .unwrap(),
+        );
+    }
+    let mut w = std::io::BufWriter::new(std::fs::File::create(&args[2]).expect("create out"));
+    for h in handles {
+        for l in h.join().expect("worker") {
+            writeln!(w, "{}", l).unwrap();
+        }
+    }
 }
